@@ -79,7 +79,7 @@ def write_graph(graph, where="home"):
 
 
 SLIM = ("r", "ra", "ru", "ria", "b", "ba", "bu", "c", "rf", "re", "re2",
-        "rpa", "ms", "cm", "cma", "rsb", "rfail", "rev")
+        "rpa", "ms", "cm", "cma", "rsb", "rfail", "rev", "ceq")
 
 
 def commands(graph, targets):
@@ -90,7 +90,7 @@ def commands(graph, targets):
     for t in targets:
         for c in ("r", "ra", "ru", "ri", "ria", "rp", "b", "ba", "bu", "c",
                   "p", "pr", "sc", "rf", "re", "re2", "rpa", "riu", "ms", "cm",
-                  "cma", "rsb", "rsq", "rfail", "rev"):
+                  "cma", "rsb", "rsq", "rfail", "rev", "ceq"):
             if slim and c not in SLIM:
                 continue
             cmds.append((c, t))
@@ -126,6 +126,11 @@ def command_text(graph, cmd):
         "cm": f"[M{t}->pub_{t}, M{t}->extra, sorted([m for m in M{t}])]",
         "cma": f"require M{t} as AL{t}; "
                f"[AL{t}->pub_{t}, AL{t}->extra, sorted([m for m in AL{t}])]",
+        # two module objects of one instance expose the same members: they
+        # are equal until an importer writes to its own object
+        "ceq": f"require M{t} as EA{t}; require M{t} as EB{t}; "
+               f"[EA{t} == EB{t}, EB{t} in [EA{t}], "
+               f"EA{t}->bump_{t} == EB{t}->bump_{t}]",
         "b": f"M{t}->bump_{t}()",
         "ba": f"AL{t}->bump_{t}()",
         "bu": f"bump_{t}()",
@@ -301,6 +306,14 @@ class Importer(e4.Explorer):
                     else:
                         resp = ["value", "[%d, NULL, %s]" % (
                             t * 10 + 5, show_names(pubs))]
+            elif c == "ceq":
+                m.load(t, [])
+                for n in (f"EA{t}", f"EB{t}"):
+                    if n not in m.names:
+                        added.add(n)
+                    m.names[n] = ("mod", t)
+                    m.written.discard(n)
+                resp = ["value", "[TRUE, TRUE, TRUE]"]
             elif c == "ba":
                 resp = ["value", str(m.bump(t))] \
                     if m.names.get(f"AL{t}") == ("mod", t) else ERR
